@@ -21,6 +21,7 @@ Scope
   these sizes: the cap was never reached).
 """
 import contextlib
+import functools
 import io
 import itertools
 import random
@@ -68,8 +69,9 @@ def _scope(tier):
     return s
 
 
+@functools.lru_cache(maxsize=None)
 def _configs(tier):
-    """[(deps, par, outcomes)] identical in every process."""
+    """[(deps, par, outcomes)] identical in every process (cached per process)."""
     out = []
     for n in range(1, 5):
         dags = list(G.forward_dags(n))
